@@ -29,6 +29,9 @@ def plan(tier, seed):
     for k in range(2 if q else 8):
         specs.append({"stratum": "json-big-costs", "family": "json", "n": 8 if q else 40, "k": k, "clean": True, "bigcost": True,
                       "case_timeout": 120, "shrink": False})
+    for k in range(2 if q else 8):
+        specs.append({"stratum": "json-deep-and-wide", "family": "json", "n": 12 if q else 100, "k": k, "clean": True, "deepwide": True,
+                      "case_timeout": 240, "shrink": False})
     if not q:
         for k in range(8):
             specs.append({"stratum": "json-large-documents", "family": "json", "n": 150, "k": k, "clean": True, "profile": "large",
